@@ -18,10 +18,10 @@
    clear-limit-zero, clear-limit-order): C02_*_refuted below.  C02_refines_partial is the full
    statement for every sequence in which no operation meets one of the five guards
    (guard_of, evaluated on the state before the operation); every limit, including 0 and
-   limits above the number of matching keys, is covered.  C02_guards_exact: inside every guard
-   except clear-limit-order the observation provably differs, so the guards exclude nothing but
-   failing inputs there (for clear-limit-order exactness is argued in docs/audit/aud-trie.md and
-   measured by the driver tag guard-agree-SLUG). *)
+   limits above the number of matching keys, is covered.  C02_guards_exact: inside every guard the
+   observation provably differs from the map's, so the guards exclude nothing but failing inputs; the
+   one region without such a proof is a limited clear that meets BOTH the trim guard and the order guard
+   (reported as prefix-trim; measured by the driver tag guard-agree-SLUG, see docs/audit/aud-trie.md). *)
 From Common Require Import Bytes Outcome.
 From Trie Require Import Nibbles Node Encode Model Spec GoSpec SpecProofs.
 From C02 Require Import Model Guards Proofs.
@@ -102,7 +102,8 @@ Print Assumptions C02_limit_refuted.
 (* the guards are not wider than the failing classes.  From any state in which the trie represents
    the map: inside the trim guard the key listing and the entries after ClearPrefix differ from the
    map's; inside the narrowed trim guard of the limited clear (outside the order guard) the
-   observation differs; inside the get guard Get differs; inside the delete guard an entry is lost
+   observation differs; inside the order guard (class clear-limit-order) the keys listed after the
+   limited clear differ; inside the get guard Get differs; inside the delete guard an entry is lost
    although the map keeps it; inside the limit-zero guard allDeleted differs. *)
 Theorem C02_guards_exact : forall t m,
   Trie.MapProofs.Rep t m ->
@@ -110,16 +111,19 @@ Theorem C02_guards_exact : forall t m,
   (forall p, guard_trim m p = true -> trie_entries (trie_clear_prefix t p) <> bm_listing (bm_clear_prefix m p)) /\
   (forall p l, l <> 0%N -> guard_limit_order_go m p l = false -> guard_trim_limit m p l = true ->
      snd (trie_step repaired t (OpClearLimit p l)) <> snd (bm_step m (OpClearLimit p l))) /\
+  (forall p l, l <> 0%N -> guard_limit_order_go m p l = true -> guard_trim_limit m p l = false ->
+     snd (trie_step repaired t (OpClearLimit p l)) <> snd (bm_step m (OpClearLimit p l))) /\
   (forall k, guard_get_exhausted t k = true -> trie_get t k <> bm_get m k) /\
   (forall k, guard_delete_exhausted t k = true ->
      length (trie_entries (trie_delete t k)) < length (bm_listing (bm_del m k))) /\
   (forall p limit, guard_limit_zero m p limit = true ->
      snd (trie_clear_prefix_limit t p limit) <> snd (bm_clear_prefix_limit m p limit)).
 Proof.
-  intros t m R. split; [|split; [|split; [|split; [|split]]]].
+  intros t m R. split; [|split; [|split; [|split; [|split; [|split]]]]].
   - intros p G. exact (guard_trim_exact_keys t m p R G).
   - intros p G. exact (guard_trim_exact_clear t m p R G).
   - intros p l Z Go Gt. exact (guard_trim_limit_exact t m p l R Z Go Gt).
+  - intros p l Z Go Gt. exact (guard_limit_order_exact t m p l R Z Go Gt).
   - intros k G. exact (guard_get_exact t m k R G).
   - intros k G. exact (guard_delete_exact t m k R G).
   - intros p limit G. exact (guard_limit_zero_exact t m p limit G).
